@@ -530,10 +530,60 @@ func (in *Interp) strLen(v value) int {
 	panic(fmt.Sprintf("strLen: %T", v))
 }
 
+// lazyVsConcrete decides equality of an unrendered formatted string with a
+// concrete one from the literal prefix alone, when that is possible.
+func lazyVsConcrete(x, y value) (bool, bool) {
+	l, ok := x.(*sstr)
+	if !ok || l.b != nil || l.lazy == nil {
+		return false, false
+	}
+	c, ok := y.(string)
+	if !ok {
+		return false, false
+	}
+	pre := l.lazy.literalPrefix()
+	if pre == "" {
+		return false, false
+	}
+	if len(c) < len(pre) || c[:len(pre)] != pre {
+		return false, true // differ within the literal prefix (or c is shorter)
+	}
+	return false, false
+}
+
 func (in *Interp) strEq(x, y value) value {
 	if xs, ok := x.(string); ok {
 		if ys, ok := y.(string); ok {
 			return xs == ys
+		}
+	}
+	if r, ok := lazyVsConcrete(x, y); ok {
+		return r
+	}
+	if r, ok := lazyVsConcrete(y, x); ok {
+		return r
+	}
+	// two unrendered keys of the same shape: equal iff their numbers are equal
+	if lx, ok := x.(*sstr); ok && lx.b == nil && lx.lazy != nil {
+		if ly, ok := y.(*sstr); ok && ly.b == nil && ly.lazy != nil {
+			px, ax, okx := lx.lazy.keyParts()
+			py, ay, oky := ly.lazy.keyParts()
+			if okx && oky {
+				if px != py {
+					// different literal prefixes: strings may still coincide only if one
+					// prefix extends the other with digits; be exact only for the simple case
+					if !strings.HasPrefix(px, py) && !strings.HasPrefix(py, px) {
+						return false
+					}
+				} else {
+					w := int(ax.bits)
+					if int(ay.bits) > w {
+						w = int(ay.bits)
+					}
+					C := in.p.C
+					return mkBool(C.Eq(C.Resize(in.iterm(ax), w, false), C.Resize(in.iterm(ay), w, false)))
+				}
+			}
 		}
 	}
 	a, b := in.sbytes(x), in.sbytes(y)
@@ -608,6 +658,7 @@ func (in *Interp) concInt(v value, what string, max int) int64 {
 		return int64(x.c)
 	}
 	C := in.p.C
+	in.p.flushBatch()
 	for n := 0; n < max; n++ {
 		// ask the solver for some feasible value
 		in.p.nFeasQ++
